@@ -87,25 +87,25 @@ type c60Ext struct {
 }
 
 type c60Case struct {
-	V6      bool   `json:"v6"`
-	Psh     bool   `json:"psh"` // ICMPv6: marshal with a pseudo header
-	Src     []byte `json:"src,omitempty"`
-	Dst     []byte `json:"dst,omitempty"`
-	Type    int    `json:"type"`
-	Code    int    `json:"code"`
-	Cksum   int    `json:"cksum"` // Message.Checksum given to Marshal (ignored by it)
-	Body    int    `json:"body"`
-	ID      int    `json:"id,omitempty"`
-	Seq     int    `json:"seq,omitempty"`
-	Data    []byte `json:"data,omitempty"`
-	NilData bool   `json:"nil_data,omitempty"`
-	Local   bool   `json:"local,omitempty"`
-	State   int    `json:"state,omitempty"`
-	Active  bool   `json:"active,omitempty"`
-	IPv4    bool   `json:"ipv4,omitempty"`
-	IPv6    bool   `json:"ipv6,omitempty"`
-	Pointer uint32 `json:"pointer,omitempty"`
-	MTU     uint32 `json:"mtu,omitempty"`
+	V6      bool     `json:"v6"`
+	Psh     bool     `json:"psh"` // ICMPv6: marshal with a pseudo header
+	Src     []byte   `json:"src,omitempty"`
+	Dst     []byte   `json:"dst,omitempty"`
+	Type    int      `json:"type"`
+	Code    int      `json:"code"`
+	Cksum   int      `json:"cksum"` // Message.Checksum given to Marshal (ignored by it)
+	Body    int      `json:"body"`
+	ID      int      `json:"id,omitempty"`
+	Seq     int      `json:"seq,omitempty"`
+	Data    []byte   `json:"data,omitempty"`
+	NilData bool     `json:"nil_data,omitempty"`
+	Local   bool     `json:"local,omitempty"`
+	State   int      `json:"state,omitempty"`
+	Active  bool     `json:"active,omitempty"`
+	IPv4    bool     `json:"ipv4,omitempty"`
+	IPv6    bool     `json:"ipv6,omitempty"`
+	Pointer uint32   `json:"pointer,omitempty"`
+	MTU     uint32   `json:"mtu,omitempty"`
 	Exts    []c60Ext `json:"exts,omitempty"`
 }
 
@@ -693,8 +693,8 @@ func c60HdrGen(t *rapid.T) c60HdrCase {
 			n := 4 * rapid.IntRange(0, 10).Draw(t, "optionWords")
 			return rapid.SliceOfN(rapid.Byte(), n, n).Draw(t, "optionBytes")
 		}).Draw(t, "options"),
-		Trailer:  rapid.SliceOfN(rapid.Byte(), 0, 8).Draw(t, "trailer"),
-		Reuse:    rapid.Bool().Draw(t, "reuse"),
+		Trailer: rapid.SliceOfN(rapid.Byte(), 0, 8).Draw(t, "trailer"),
+		Reuse:   rapid.Bool().Draw(t, "reuse"),
 		PrevOptions: rapid.Custom(func(t *rapid.T) []byte {
 			n := 4 * rapid.IntRange(0, 10).Draw(t, "prevOptionWords")
 			return rapid.SliceOfN(rapid.Byte(), n, n).Draw(t, "prevOptionBytes")
